@@ -593,6 +593,11 @@ def rand_funcdef(rnd, depth=3, name=None, kr=False):
         if len(names) >= 2 and rnd.random() < 0.5:
             # two names in one declaration
             krdecls = [M("decl", specs=basic_specs(["int"]), dtors=[dtor(names[0]), dtor(names[1], [("ptr", [])])])] + krdecls[2:]
+        if rnd.random() < 0.6:
+            # the declaration list need not follow the order of the identifier list (6.9.1p6); FuncDef.param_decls is in source order
+            rnd.shuffle(krdecls)
+            for kd in krdecls:
+                rnd.shuffle(kd["dtors"])
     else:
         params = []
         r = rnd.random()
